@@ -1,12 +1,13 @@
 CONSTANTS
   Dev = {}
-  RD = 2
-  MaxRetries = 2
+  TickMs = 10000
+  Confs <- MCConfsT
   MaxDgrams = 3
   Faults <- MCFaults
 SPECIFICATION DSpec
 INVARIANT DOwnAnswer
 INVARIANT DAtMostOnce
 INVARIANT DBudget
+INVARIANT DConfigured
 INVARIANT DCurrentAttempt
 CHECK_DEADLOCK FALSE
